@@ -748,6 +748,7 @@ class Engine:
                 return _opq(z3.Const(fresh_name(name), ValSort), z3.Int(fresh_name(name + '.len')))
             if T == 'optdict':          # an option dictionary as an opaque value WITH object identity (mutable)
                 o = Opaque(z3.Const(fresh_name(name), ValSort), name)
+                self.assume(o.t != z3.Const('options_none', ValSort))          # a dictionary is not None
                 o.cell = {'ident': self.new_ident(fresh), 't': o.t}
                 return o
             raise Unsupported('type %s' % T)
@@ -1144,6 +1145,17 @@ class Engine:
 
     def binop(self, op, a, b, n=None):
         from . import lib
+        if isinstance(op, ast.Mult):
+            for lst, k in ((a, b), (b, a)):
+                if isinstance(lst, Arr) and lst.kind == 'list' and getattr(lst, 'lead', None) == 1 and len(lst.shape) == 1 \
+                        and (isinstance(k, int) or (isinstance(k, Z) and k.ty == INT)):
+                    # python list repetition: k copies of the same element objects, one after the other
+                    from . import grid as _grid
+                    ln = lst.shape[0] if not isinstance(lst.shape[0], int) else z3.IntVal(lst.shape[0])
+                    kt = k.t if isinstance(k, Z) else z3.IntVal(k)
+                    clo = self.st.heap[lst.ident]
+                    return _grid.grid(self, (z3.simplify(ln * z3.If(kt > 0, kt, 0)),), 1,
+                                      (lambda i, clo=clo, ln=ln: clo(i % ln)), 'list', owner=_grid.owner_of(lst))
         if isinstance(a, Arr) or isinstance(b, Arr):
             return lib.arr_binop(self, op, a, b, n)
         if isinstance(a, (PyList, tuple, list)) or isinstance(b, (PyList, tuple, list)):
@@ -1355,6 +1367,10 @@ class Engine:
             return Z(a.isnone, BOOL)
         if isinstance(b, Opt) and a is None:
             return Z(b.isnone, BOOL)
+        if (a is None and isinstance(b, Opaque) and getattr(b, 'maybe_none', False)) or \
+                (b is None and isinstance(a, Opaque) and getattr(a, 'maybe_none', False)):
+            o = a if isinstance(a, Opaque) else b
+            return Z(IS_NONE_VAL(o.t), BOOL)           # a looked-up option value may be None: an unknown predicate of it
         if a is None or b is None:
             return a is None and b is None
         if isinstance(a, (bool,)) or isinstance(b, (bool,)):
@@ -1399,6 +1415,8 @@ class Engine:
             s = a if isinstance(a, str) else b
             if isinstance(other, Z) and other.ty == STR:
                 return Z(other.t == str_code(s), BOOL)
+            if isinstance(other, Opaque):
+                return Z(STR_OF_VAL(other.t) == str_code(s), BOOL)
             return False
         if not is_sym(a) and not is_sym(b):
             if isinstance(a, (int, float, bool)) and isinstance(b, (int, float, bool)):
@@ -1454,6 +1472,10 @@ def _has_quant(t):
         seen.add(i)
         stack.extend(x.children())
     return False
+
+
+IS_NONE_VAL = z3.Function('value_is_none', ValSort, z3.BoolSort())
+STR_OF_VAL = z3.Function('value_as_string', ValSort, z3.IntSort())
 
 
 def _opq(t, tlen=None):
